@@ -57,6 +57,8 @@ WRAP_PROGRAMS = [
     "fun g(): Int {\n  let t = 0\n  let i = 0\n  while i < 3 {\n    if i == 1 { i += 1 continue }\n    t += i\n    i += 1\n  }\n  for x in [10, 20] { if x == 20 { break } t += x }\n  return t\n}\nprintln(string_repr(g()))\n",
     "struct P { x: Int, name: String }\nlet p = P{ x: 1, name: \"\\u00e9\\U0001F600\" }\nprintln(p.name ^ \"!\")\nlet q = (p.x, \"a\")\nlet (m, n) = q\nprintln(string_repr(m))\nlet d = Dict[\"k\" => 1]\nprintln(string_repr(d.get(\"k\")))\n",
     "fun h(x: Int): Int {\n  let k = fun(y: Int) { y * x }\n  assert(k(2) == 2 * x)\n  try { k(3) } catch (e) { 0 }\n}\nprintln(string_repr(h(4)))\nprintln(string_repr(1.5 +. 2.0))\nprintln(string_repr(not(True) || False))\n",
+    # `&&` / `||` whose right operand prints, as the argument of assert and elsewhere: wrapping must not change how often it runs
+    "fun noisy(tag: String): Bool {\n  println(\"called \" ^ tag)\n  True\n}\nfun main() {\n  let c = True\n  assert(c || noisy(\"a\"))\n  assert(noisy(\"b\") || c)\n  assert(not(c) && noisy(\"c\") == False)\n  let d = c || noisy(\"d\")\n  let e = not(c) && noisy(\"e\")\n  if c || noisy(\"f\") { println(string_repr(d && not(e))) }\n  assert((c || noisy(\"g\")) == True)\n}\nmain()\n",
 ]
 BOUNDED = [
     {"name": "wrap_corpus", "kind": "wrap-dbg-corpus", "props": ["C21"], "input": WRAP_PROGRAMS, "n_inputs": len(WRAP_PROGRAMS),
